@@ -29,8 +29,8 @@ INDEX_GHOST = '''
         &&& (self.v_slot_count() != 0 ==> is_pow2_u32(self.v_slot_count()) && self.v_slot_count() > self.v_unit_count())
         &&& self.v_hash_ids().len == 8 * self.v_slot_count()
         &&& self.v_hash_rows().len == 4 * self.v_slot_count()
-        &&& self.v_offsets().len == 4 * self.v_unit_count() * self.v_section_count()
-        &&& self.v_sizes().len == 4 * self.v_unit_count() * self.v_section_count()
+        &&& self.v_offsets().len == self.v_unit_count() * self.v_section_count() * 4
+        &&& self.v_sizes().len == self.v_unit_count() * self.v_section_count() * 4
     }
 '''
 
@@ -120,6 +120,7 @@ use vstd::std_specs::iter::IteratorSpec;''')
         before=[('if input.is_empty() {', 'let ghost b0 = input.rv();'),
                 ('if slot_count != 0 && (', 'proof { lemma_pow2_mask_test(slot_count); }'),
                 ('let offsets = input.split(', 'proof { assert(0 <= (unit_count as int) * (section_count as int) <= 0xffff_ffff * 8) by (nonlinear_arith) requires 0 <= unit_count <= 0xffff_ffff, 0 <= section_count <= 8; }')],
+        after=[('let section = input.read_u32()?;', 'assert(section as nat == b0.u(16 + 12 * slot_count + 4 * i, 4));')],
         # the postconditions speak about the by-value parameter `input`, which the loop invariant cannot name
         # (inside the body `input` is the mutable local): the loop inherits the facts established before it
         attrs='#[verifier::loop_isolation(false)]')
